@@ -21,6 +21,10 @@ RULES = {
     "metrics-util/src/recoverable.rs": [(r"\.upgrade\(\)", ".v_upgrade()"), (r"Arc::try_unwrap\(", "metrics::verif_sched::v_try_unwrap("),
                                         (r"(Arc|Weak)::strong_count\(", "metrics::verif_sched::v_strong_count("), (r"\.strong_count\(\)", ".v_strong_count_m()")],
     "metrics-exporter-dogstatsd/src/storage.rs": [(ATOMIC, r".v_\1(")],
+    # statement-level yields in the Prometheus recorder: before a bucket is drained and before the distributions lock is taken
+    "metrics-exporter-prometheus/src/recorder.rs": [(r"(?m)^(\s*)([^\n/]*\.clear_with\()", r'\1metrics::verif_sched::yield_point("clear_with");\n\1\2'),
+                                                    (r"(?m)^(\s*)(let [^\n]*self\.distributions\s*\.write\(\))", r'\1metrics::verif_sched::yield_point("distributions.write");\n\1\2'),
+                                                    (r"(?m)^(\s*)(let [^\n]*=\s*)\n(\s*)(self\.distributions\.(read|write)\(\))", r'\1metrics::verif_sched::yield_point("distributions.lock");\n\1\2\n\3\4')],
 }
 USE = {
     "metrics": "#[allow(unused_imports)]\nuse crate::verif_sched::{VAtomic as _, VArith as _, VPtr as _};\n",
@@ -55,7 +59,8 @@ def main(dst, repo="/repo"):
         for pat, rep in rules:
             head, k = re.subn(pat, rep, head)
             n += k
-        head = insert_use(head, USE.get(rel, USE["metrics" if rel.startswith("metrics/") else "other"]))
+        if not rel.startswith("metrics-exporter-prometheus/"):
+            head = insert_use(head, USE.get(rel, USE["metrics" if rel.startswith("metrics/") else "other"]))
         open(p, "w").write(head + tail)
         print(f"instrumented {rel}: {n} sites")
     lib = os.path.join(dst, "metrics/src/lib.rs")
